@@ -47,12 +47,17 @@ def run(ctx):
 
 def r1_plumbing(ctx):
     c02.r4_provenance(ctx, 'R1')
+    check_signature_clone(ctx, 'R1')
+    c10.r6_clef_in_force(ctx, 'R1')
+
+
+def check_signature_clone(ctx, rule):
     init = ctx.prog.func(f'{N.DOCUMENT}.Node.__init__')
     p = 'last_signature_nodes'
     stores = [n for n in walk_local(init.node) if isinstance(n, ast.Assign) and src(n.targets[0]) == f'self.{p}']
     vals = sorted(src(s.value) for s in stores)
     ok = vals == sorted([f'{p}.clone()', 'SignatureNodes()'])
-    ctx.check(ok, 'R1', init.loc, init.qualname, 'signature-context-cloned',
+    ctx.check(ok, rule, init.loc, init.qualname, 'signature-context-cloned',
               'a node stores a CLONE of the signature context it inherits (or a new one)',
               f'Node.__init__ stores {vals}: the context object is shared between a node and its parent/siblings, so a signature '
               f'change in one sub-spine after a split leaks into the other')
@@ -63,10 +68,9 @@ def r1_plumbing(ctx):
             st = [e for e in sp.events if e.kind == 'store' and isinstance(e.target, ast.Attribute) and e.target.attr == 'nodes']
             okc = len(st) == 1 and src(st[0].expr) in ('copy(self.nodes)', 'dict(self.nodes)', 'self.nodes.copy()', 'copy.copy(self.nodes)') \
                 and src(sp.value) == 'SignatureNodes()'
-    ctx.check(okc, 'R1', cl.loc, cl.qualname, 'clone-copies-dict',
+    ctx.check(okc, rule, cl.loc, cl.qualname, 'clone-copies-dict',
               'SignatureNodes.clone returns a new object holding a copy of the dict',
               'SignatureNodes.clone does not copy the dict: the clone aliases the original context')
-    c10.r6_clef_in_force(ctx, 'R1')
 
 
 def r2_preamble(ctx):
